@@ -1,8 +1,8 @@
 package props
 
 import (
-	"math/big"
 	"fmt"
+	"math/big"
 
 	"github.com/formancehq/numscript/internal/verifmc/env"
 	"github.com/formancehq/numscript/internal/verifmc/gen"
